@@ -53,7 +53,7 @@ BASE = {
     "Node": vlib.tla_set(["n1", "n2"]), "Writers": vlib.tla_set(["n1"]),
     "Key": vlib.tla_set(["k1", "k2"]), "Val": vlib.tla_set(["a", "b"]),
     "Cluster": ("<-", "MC_Cluster"), "Addr": ("<-", "MC_Addr"), "Grace": 2, "Advances": "{2}", "Budget": 99,
-    "MaxVer": 3, "MaxInflight": 1, "MaxClock": 2, "MaxHb": 0, "TrackHb": "FALSE",
+    "MaxVer": 3, "MaxInflight": 1, "MaxClock": 2, "MaxHb": 0, "TrackHb": "FALSE", "KeepPath": "TRUE",
     "PhiN": 8, "PhiD": 1, "Window": 3, "MaxInterval": 10, "Prior": 5, "DeadGrace": 100,
     "PredKey": '""', "PredVal": '""', "ConvRounds": 3, "Enable": vlib.tla_set(["api", "gc", "lose", "dup"]),
 }
@@ -282,6 +282,38 @@ def schedule_traces(tier, seed):
                     st.append({"a": "Liveness", "n": "n1"})
             behaviours.append(st)
         out.append(("sched" + ("_pred" if pred else ""), h, c, behaviours, True))
+    # a peer restarts on the same address under the next generation while the observer still has the old
+    # incarnation live: two members with one address, equal or different max versions, one of them
+    # leaving or joining the live set at a time
+    behaviours = []
+    for _ in range(n // 2):
+        st = []
+        for p in ("n2", "n2~1", "n3"):
+            for j in range(rnd.choice([0, 1, 1]) if p != "n2~1" else 0):
+                st.append({"a": "Set", "n": p, "k": "k1", "v": "v1"})
+        if rnd.random() < 0.7:      # the new incarnation repeats the old one's writes (equal max version)
+            st += [dict(e, n="n2~1") for e in st if e["n"] == "n2"]
+        epochs = rnd.randint(6, 10)
+        switch = rnd.randint(2, epochs - 3)
+        overlap = rnd.choice([0, 1, 2])
+        for e in range(epochs):
+            talking = ["n3"] if rnd.random() < 0.7 else []
+            if e < switch + overlap:
+                talking.append("n2")
+            if e >= switch:
+                talking.append("n2~1")
+            rnd.shuffle(talking)
+            for p in talking:
+                if rnd.random() < 0.5:
+                    _hs(st, p, "n1")
+                else:
+                    _hs(st, "n1", p)
+            st.append({"a": "Advance", "d": rnd.choice([1, 1, 2, 3])})
+            if rnd.random() < 0.6 or e == epochs - 1:
+                st.append({"a": "Liveness", "n": "n1"})
+        behaviours.append(st)
+    out.append(("sched_rs", {"nodes": ["n1", "n2", "n3", "n2~1"], "grace": 1000, "fd": FD_SMALL},
+                dict(FD_CONST, Grace=1000), behaviours, True))
     return out
 
 
@@ -289,7 +321,7 @@ def trace_constants(over):
     c = dict(BASE)
     c.update({"Node": ("<-", "MC_Node"), "Writers": ("<-", "MC_Node"), "Key": "{}", "Val": "{}",
               "Advances": "{}", "TrackHb": "TRUE", "Enable": "{}", "MaxVer": 0, "MaxInflight": 0,
-              "MaxClock": 0})
+              "MaxClock": 0, "KeepPath": "FALSE"})
     c.update(over)
     return c
 
